@@ -38,17 +38,17 @@ Theorem C02_listing_program_refines_stitch :
 Proof. exact list_refines. Qed.
 Print Assumptions C02_listing_program_refines_stitch.
 
-(* Asking for the latest complete version selects the newest one with a (non-empty) tail. *)
+(* Asking for the latest complete version selects the newest band whose head opens and whose
+   tail exists and is not zero-length; a band that cannot be opened is skipped. *)
 Theorem C02_latest_complete_is_newest :
   forall (pre : bytes -> N) (a : arch) (R : Type) (k : option N -> prog R),
     has_dir a DRoot = true ->
-    (forall b : N, has_dir a (DBand b) = true -> head_opens a b = true) ->
     exists o : option N,
       evals pre a (resolve LatestClosed k) (k o) /\
       match o with
-      | Some b => has_dir a (DBand b) = true /\ tail_closed a b = true /\
-                  (forall b' : N, has_dir a (DBand b') = true -> tail_closed a b' = true -> (b' <= b)%N)
-      | None => forall b' : N, has_dir a (DBand b') = true -> tail_closed a b' = false
+      | Some b => has_dir a (DBand b) = true /\ open_closed a b = true /\
+                  (forall b' : N, has_dir a (DBand b') = true -> open_closed a b' = true -> (b' <= b)%N)
+      | None => forall b' : N, has_dir a (DBand b') = true -> open_closed a b' = false
       end.
 Proof. exact latest_closed_is_newest. Qed.
 Print Assumptions C02_latest_complete_is_newest.
